@@ -224,13 +224,52 @@ def attr_lin(node):
     return None
 
 
+def accessor_table(repo, cname):
+    """index -> accessor name, from the properties of the class of the form `return self.args[k]`"""
+    out = {}
+    for _, c in repo.mro(cname):
+        for f in c.body:
+            if isinstance(f, ast.FunctionDef) and any(ast.unparse(d) == "property" for d in f.decorator_list):
+                body = [b for b in f.body if not (isinstance(b, ast.Expr) and isinstance(b.value, ast.Constant))]
+                if len(body) == 1 and isinstance(body[0], ast.Return) and isinstance(body[0].value, ast.Subscript):
+                    v = body[0].value
+                    if ast.unparse(v.value) == "self.args" and isinstance(v.slice, ast.Constant) and isinstance(v.slice.value, int):
+                        out.setdefault(v.slice.value, f.name)
+    return out
+
+
+class _FoldArgs(ast.NodeTransformer):
+    """self.args[k] -> self.<accessor of index k> (which accessor names which index is decided by C18.ARGS)"""
+
+    def __init__(self, table):
+        self.table = table
+
+    def visit_Subscript(self, node):
+        self.generic_visit(node)
+        if ast.unparse(node.value) == "self.args" and isinstance(node.slice, ast.Constant) and node.slice.value in self.table \
+                and isinstance(node.ctx, ast.Load):
+            return ast.copy_location(ast.Attribute(ast.Name("self", ast.Load()), self.table[node.slice.value], ast.Load()), node)
+        return node
+
+
 def check_range(chk, repo):
+    import copy
     n0, n1 = Lin.sym("self.n0"), Lin.sym("self.n1")
     for cname, desc in (("Forward", False), ("Reverse", True)):
         rel, c = repo.find_class(cname)
         base = f"{rel[:-3]}.{cname}"
+        table = accessor_table(repo, cname)
+        _method = repo.method
+
+        class _R:      # the three methods with self.args[k] folded back into the accessor names
+            @staticmethod
+            def method(rel_, cname_, mname):
+                f_ = copy.deepcopy(_method(rel_, cname_, mname))
+                f_ = ast.fix_missing_locations(_FoldArgs(table).visit(f_))
+                return f_
+        repo_ = _R
         # __len__
-        f = repo.method(rel, cname, "__len__")
+        f = repo_.method(rel, cname, "__len__")
         chk.functions.add(base + ".__len__")
         rets = [r for r in ast.walk(f) if isinstance(r, ast.Return)]
         v = attr_lin(rets[0].value) if len(rets) == 1 else None
@@ -242,7 +281,7 @@ def check_range(chk, repo):
                        (False if d.is_const() else None),
                        f"len is {ast.unparse(rets[0].value)}; n1 - n0 differs by {d}", rel=rel, node=f)
         # __contains__
-        f = repo.method(rel, cname, "__contains__")
+        f = repo_.method(rel, cname, "__contains__")
         chk.functions.add(base + ".__contains__")
         rets = [r for r in ast.walk(f) if isinstance(r, ast.Return)]
         pname = f.args.args[1].arg if len(f.args.args) > 1 else "step"
@@ -261,7 +300,7 @@ def check_range(chk, repo):
                            None if val is None else (val == expect),
                            f"membership evaluates to {val}, the covered steps [n0, n1) give {expect}", rel=rel, node=f)
         # __iter__
-        f = repo.method(rel, cname, "__iter__")
+        f = repo_.method(rel, cname, "__iter__")
         chk.functions.add(base + ".__iter__")
         rng = [n for n in ast.walk(f) if isinstance(n, ast.Call) and isinstance(n.func, ast.Name) and n.func.id == "range"]
         cons = base + ".__iter__"
